@@ -1162,5 +1162,8 @@ def r2(ctx):
     # the sibling creation idiom `map.insert(key, vec![v])` (query_string_to_normalized_map; checked by the imported
     # C10-R4 / C11-R3 insert rules above) counts towards the floor: 3 creation sites confirmed by hand on the pinned tree
     n_ins = sum(1 for b in ctx.facts.all_bodies() for bi, t in b.calls(r"HashMap::<K, V, S, A>::insert$") if re.search(r"HashMap::<std::string::String, std::vec::Vec<", t.get("resolved_full", "")))
+    # third idiom (C11-R3): the list is the collect() of headers.get_all(name).iter() for a name taken from headers.keys():
+    # a name the map yields has at least one value (http::HeaderMap)
+    n_ins += sum(1 for b in ctx.facts.all_bodies() for bi, t in b.calls(r"Iterator::collect$") if re.search(r"^<std::iter::Map<http::header::ValueIter<.*collect::<std::vec::Vec<std::vec::Vec<u8>>>$", t.get("resolved_full", "")))
     if n + n_ins < 3:
         yield MISSING("C08-R2", "or_default/floor", "expected >= 3 value-list creation sites (entry().or_default() in normalize_headers and the form merge, insert(vec![..]) in query_string_to_normalized_map), found %d + %d" % (n, n_ins))
